@@ -327,8 +327,8 @@ struct Job {
 }
 
 fn run(tier: Tier) -> Sink {
-    let nmax = tier.pick(1200, 3000);
-    let nfe = tier.pick(400, 1000);
+    let nmax = tier.pick(1200, 10000);
+    let nfe = tier.pick(400, 1500);
     let nexact = tier.pick(60, 200);
     let mut jobs = vec![];
     for (kind, level) in vcheck::confs(tier) {
@@ -450,9 +450,9 @@ fn main() {
     s.sample(json!({"fe":"ci_if","bits":[1,0,1,1,0,1,0,1],"expect":"interval of (8,5); negated predicate counts (8,3)"}));
     rep.rule = format!(
         "every (n,k) with 0<=n<={}, 0<=k<=n+1 (plus 19 counts for each n in {{5e3,1e4,65537,1e5,1e6,123456789,2^32-1,2^32,2^32+1,6e9,2^53}}) x {} confidences (levels x 3 kinds) through ci_wilson and ci_z_normal; 6 close neighbours of every level (relative 1e-9, absolute 3e-8, f32 rounding) in one sequential call chain on 4 count pairs; ci, Stats::new().ci and ci_wilson_ratio(n,k/n) for n<={}; exact-rational score residual for n<={}; every boolean sequence of length <={} and 3 arrangements x 8 counts for lengths up to 60 through ci_true, ci_if, Stats::from_iter/extend/extend_if/add_*; distinct by (front-end, outcome variant, kind)",
-        tier.pick(1200, 3000),
+        tier.pick(1200, 10000),
         vcheck::confs(tier).len(),
-        tier.pick(400, 1000),
+        tier.pick(400, 1500),
         tier.pick(60, 200),
         tier.pick(10, 12)
     );
